@@ -72,6 +72,17 @@ theorem forEach_eq {σ : Type} : ∀ (p : P) (f : Visitor σ) (s : σ),
     · rw [forEach_eq p, foldUntil_collect]; rfl
   | .empty, f, s => by simp [forEach, enum]
   | .macro es, f, s => by simp only [forEach, enum]; exact foldUntil_macro f s es
+  | .extentPoint ts, f, s => by simp [forEach, enum]
+  | .extentRange a b, f, s => by simp [forEach, enum]
+  | .spanCtxt t sp pa, f, s => by simp [forEach, enum]
+  | .spanView name p, f, s => by
+    simp only [forEach, enum, foldUntil_append, andThen_eq, forEach_eq p f]
+    try rfl
+  | .metricView name agg v p, f, s => by
+    simp only [forEach, enum, foldUntil_append, andThen_eq, forEach_eq p f]
+    try rfl
+  | .frame es, f, s => by simp [forEach, enum]
+  | .slot p, f, s => by simp only [forEach, enum]; exact forEach_eq p f s
 theorem forEachList_eq {σ : Type} : ∀ (ps : List P) (f : Visitor σ) (s : σ),
     forEachList ps f s = foldUntil (unc f) s (enumList ps)
   | [], f, s => by simp [forEachList, enumList]
